@@ -27,10 +27,10 @@ import c06lib as L
 from wirelib import WIRE
 
 WRAPS_HS = ['sendto', 'recvfrom', 'recv', 'recvmsg', 'time', 'write_tun', 'read_tun', 'system', 'rand', 'sleep', 'select',
-            'errx', 'err', 'exit']
-HS = vlib.tu_harness(['hmain.c', 'h_handshake.c', 'wire_net.c', 'wire_srv.c', 'wire_cli.c'], 'server', WRAPS_HS)
+            'errx', 'err', 'exit', 'compress2', 'uncompress']
+HS = vlib.tu_harness(['hmain.c', 'h_handshake.c', 'wire_net.c', 'wire_srv.c', 'wire_cli.c', 'zreal.c'], 'server', WRAPS_HS)
 HS['repo'] = vlib.COMMON_SRCS + ['user.c', 'fw_query.c', 'util.c']
-HF = vlib.tu_harness(['hmain.c', 'h_hsfuzz.c', 'wire_net.c'], 'client', WRAPS_HS)
+HF = vlib.tu_harness(['hmain.c', 'h_hsfuzz.c', 'wire_net.c', 'zreal.c'], 'client', WRAPS_HS)
 SPECS = dict(wire=WIRE, cli=clilib.CLI, hs=HS, hf=HF)
 RECOVER = ['-fsanitize-recover=undefined']
 
@@ -633,6 +633,14 @@ def gen_tunnel_matched(rng, n):
                 fr = hdr + bytes([rng.randrange(256)]) + bytes(rng.randrange(256) for _ in range(rng.randrange(20)))
             elif k == 4:
                 fr = hdr[:rng.randrange(4)]
+                keep = rng.randrange(2)
+                if keep:
+                    # right after a well-formed frame: the bytes it left in the receive buffer must not be parsed again
+                    import zlib
+                    items.append(('', hdr + bytes([0x20 | uid]) + zlib.compress(bytes(rng.randrange(256) for _ in range(40)))[:rng.choice([200, 30])], 0))
+                    fr = hdr
+                    items.append(('', fr, -1))          # residue -1: the receive buffer keeps what the previous datagram left
+                    continue
             else:
                 fr = bytes(rng.randrange(256) for _ in range(rng.randrange(0, 30)))
             items.append(('', fr, rng.randrange(5)))
